@@ -2,7 +2,7 @@
     C06-C08 (ExtrOcamlBasic only). *)
 From Coq Require Import Extraction ExtrOcamlBasic.
 Require Import Celma.Common.Res Celma.ArgH.Key Celma.ArgH.Table Celma.ArgH.Lex Celma.ArgH.Handler
-               Celma.ArgH.Split Celma.ArgH.Sources Celma.ArgH.Groups Celma.ArgH.ArgFile Celma.ArgH.SubGroup.
+               Celma.ArgH.Split Celma.ArgH.Sources Celma.ArgH.Groups Celma.ArgH.ArgFile Celma.ArgH.SubGroup Celma.ArgH.GroupsGen.
 Extraction Language OCaml.
 Extraction "../ocaml/gen/args_model.ml" parse_key add_argument eval_sources eval_string split
-           file_arg_lines_pinned tokens first next eval_group eval_sources_af eval_sg sg_keys_ok.
+           file_arg_lines_pinned tokens first next eval_group eval_sources_af eval_sg sg_keys_ok eval_group_sg grp_keys_ok.
